@@ -1,6 +1,7 @@
 import PsycheModel.StmtCtx
 import PsycheModel.Lemmas.GuessRole
 import PsycheModel.Lemmas.Stmt
+import PsycheModel.Lemmas.Init
 import PsycheModel.Lemmas.Expr
 import PsycheModel.ExprReal
 /-!
